@@ -186,6 +186,13 @@ func (g *Gen) applyCall(ci *callInfo, st *State, r string, pos token.Pos, argOve
 			g.storeType(st, g.val(c.elem).T, c.typ, g.loadTypeH(st, c.tmp, c.typ, "cell"), "elm")
 		}
 	}()
+	if g.con != nil && g.con.ArgsOnly && len(g.inlining) == 0 {
+		// args-only contract: the call is a havoc of everything, its contract plays no part
+		g.havocAll(st)
+		res, _ := g.resultVals(ci.sig, st, "ares")
+		g.assumeResultFacts(res, ci.sig, st)
+		return res
+	}
 	if ci.con == nil && g.canInline(ci) {
 		return g.inlineCall(ci, actuals, st, r)
 	}
